@@ -34,7 +34,7 @@ RULE = ("case = (module texts, add order); non-trivial when >= 2 modules are lin
         "boundary; distinct by (texts, order).")
 ASSUMPTIONS = ["nslc.py exit status 0 and an output file = module compiled", "process start cost bounds the sample size"]
 SHARD_TIMEOUT = {"quick": 1200, "thorough": 7200}
-BUDGET = {"quick": 5, "thorough": 220}
+BUDGET = {"quick": 4, "thorough": 220}
 INPUT_X = (0, 2, 5)
 
 
@@ -70,7 +70,7 @@ def expected(sp, root_funcs, gl0):
     return exp
 
 
-def run_split(R, rng, sp, label, tier):
+def run_split(R, rng, sp, label, tier, force_sequence=False):
     tmp = tempfile.mkdtemp(prefix="nslverif_c16_")
     try:
         R.count("programs")
@@ -143,6 +143,10 @@ def run_split(R, rng, sp, label, tier):
         # the second link must see the new contents
         if sp.libs:
             relink_after_restore(R, rng, tmp, sp, root_names, root_funcs, gl0, label)
+        # several links in ONE process over the same Module objects (MemoryModuleLoader): each root alone, all roots, each
+        # root alone again — every link must behave like a fresh process linking the same roots
+        if sp.libs and (force_sequence or rng.random() < 0.6):
+            link_sequence_shared_objects(R, rng, tmp, sp, root_names, gl0, label)
         # duplicate definitions across two added modules must fail the link
         for what in ("function", "global"):
             a = "dupa_%s" % what
@@ -172,6 +176,34 @@ def run_split(R, rng, sp, label, tier):
                     R.count("duplicate_rejected")
     finally:
         shutil.rmtree(tmp, ignore_errors=True)
+
+
+def link_sequence_shared_objects(R, rng, tmp, sp, root_names, gl0, label):
+    mem = {n: n + ".nslir" for n, _, _ in sp.libs}
+    funcs_of = {n: [f for f in fs if f.exported] for n, fs, _, _ in sp.roots}
+    seq = ([list(root_names)] if len(root_names) > 1 else [[root_names[0]]]) + [[r] for r in reversed(root_names)]
+    # a diamond first, then the chains: add an extra root that imports every library directly
+    rounds = []
+    for roots in seq:
+        calls = [[f.name, {"x": x}, gl0] for r in roots for f in funcs_of[r] for x in INPUT_X[:2]]
+        rounds.append({"modules": [r + ".nslir" for r in roots], "calls": calls})
+    shared = runner.helper("relink", {"cwd": tmp, "memory_loader": mem, "rounds": rounds})
+    R.count("relink_processes")
+    if shared.get("error") or len(shared.get("rounds", [])) != len(rounds):
+        R.inconclusive.append("link-sequence helper failed: %s" % shared.get("error"))
+        return
+    for k, rd in enumerate(rounds):
+        fresh = runner.helper("relink", {"cwd": tmp, "rounds": [rd]})
+        R.count("relink_processes")
+        R.evaluations += 1
+        if fresh.get("error") or not fresh.get("rounds"):
+            continue
+        if shared["rounds"][k] != fresh["rounds"][0]:
+            R.violation("link-sequence-over-shared-module-objects-differs", "%s: link %d of a sequence over the same Module objects (roots %s) behaves differently "
+                        "from a fresh process: %s vs %s" % (label, k + 1, rd["modules"], str(shared["rounds"][k])[:150], str(fresh["rounds"][0])[:150]),
+                        {"sources": {n: sp.layouts[n][0] for n in sp.layouts}, "sequence": [r["modules"] for r in rounds], "failing_link": k})
+            return
+    R.count("link_sequences_agree")
 
 
 def relink_after_restore(R, rng, tmp, sp, root_names, root_funcs, gl0, label):
@@ -219,6 +251,12 @@ def relink_after_restore(R, rng, tmp, sp, root_names, root_funcs, gl0, label):
 
 
 def run_shard(tier, seed, shard, n, R):
+    # directed: a diamond linked first, then a chain over the same library objects (and name variants)
+    variants = [("lib", "mid"), ("m0", "m1"), ("pkg0/util", "pkg1/util"), ("color", "colors")]
+    if shard < len(variants):
+        rng0 = random.Random(seed)
+        sp = gmod.directed_diamond(variants[shard])
+        run_split(R, rng0, sp, "directed diamond %s" % (variants[shard],), tier, force_sequence=True)
     for j in range(BUDGET[tier]):
         s = (seed * 1000003 + shard) * 100000 + j
         rng = random.Random(s)
